@@ -211,6 +211,55 @@ Theorem cron_two_loops_one_occurrence_refuted :
 Proof. exact (conj cas_none_refuted cas_split_refuted). Qed.
 Print Assumptions cron_two_loops_one_occurrence_refuted.
 
+(* ---- several runners polling one store, each with its own cache of the last execution ---- *)
+(* the current source reads the stored last execution on every poll that passes the cache short cut and hands that
+   value to the compare-and-swap: whichever runner polls, the outcome is the one of a single runner polling alone, so
+   a tick is neither lost nor doubled by stale caches (instantiated with the generated fact: the proof term is
+   `eq_refl` on it) *)
+Theorem cron_runner_caches_are_invisible : forall sched c ps st caches, Forall (cache_le st) caches ->
+  mr_polls sched gen_facts c st caches ps = store_polls sched gen_facts c st (map snd ps).
+Proof. exact (fun sched c => mr_polls_fixed sched gen_facts c eq_refl (conj eq_refl eq_refl)). Qed.
+Print Assumptions cron_runner_caches_are_invisible.
+
+Theorem cron_runner_caches_refuted : forall F, f_cron_storage_read_always F = false ->
+  f_cron_window_inclusive F = true -> f_cron_min_interval_strict F = true -> f_cron_first_poll_checked F = true ->
+  let c := {| cw_window_s := 60; cw_min_interval_s := 50; cw_tolerance_s := 30; cw_strict := false |} in
+  mr_polls (fun _ => true) F c None [None; None] [(0%nat, 10 * US); (1%nat, 70 * US); (0%nat, 130 * US)]%Z = [true; true; false]
+  /\ store_polls (fun _ => true) F c None [10 * US; 70 * US; 130 * US]%Z = [true; true; true].
+Proof. exact stale_cache_loses_tick_refuted. Qed.
+Print Assumptions cron_runner_caches_refuted.
+
+(* ---- every pending occurrence is seen by a loop iteration ("however many other occurrences are pending") ---- *)
+(* both stores hand every pending valid condition to the loop iteration: the iteration over what was read is the
+   iteration of the model, whatever bound a partial read would have *)
+Theorem loop_reads_every_pending_occurrence : forall n trigs s,
+  iteration_lim gen_facts (f_mem_pending_read_complete gen_facts) n trigs s = iteration gen_facts trigs s
+  /\ iteration_lim gen_facts (f_sqlite_pending_read_complete gen_facts) n trigs s = iteration gen_facts trigs s.
+Proof. exact (fun n trigs s => conj (iteration_lim_complete gen_facts n trigs s) (iteration_lim_complete gen_facts n trigs s)). Qed.
+Print Assumptions loop_reads_every_pending_occurrence.
+
+Theorem bounded_pending_read_refuted : forall F,
+  let s2 := run F false [t_or_event] [ORecord 0 (ev 1); ORecord 0 (ev 2)] in
+  length (launched (iteration_lim F false 1 [t_or_event] s2)) = 1
+  /\ length (pending (iteration_lim F false 1 [t_or_event] s2)) = 1
+  /\ let s3 := run F false [t_or_event; t_and_two] [ORecord 5 (ev 1); ORecord 0 (ev 2)] in
+     launched (iteration_lim F false 1 [t_or_event; t_and_two] (iteration_lim F false 1 [t_or_event; t_and_two] s3)) = [].
+Proof. exact bounded_read_refuted. Qed.
+Print Assumptions bounded_pending_read_refuted.
+
+(* ---- an occurrence report reaches the conditions of its own kind only ---- *)
+Theorem report_reaches_its_own_kind_only : forall c o,
+  (reaches (f_mem_source_filter_exact gen_facts) c o = true -> kind_of c = o_kind o)
+  /\ (reaches (f_sqlite_source_filter_exact gen_facts) c o = true -> kind_of c = o_kind o).
+Proof. exact (fun c o => conj (reaches_exact c o) (reaches_exact c o)). Qed.
+Print Assumptions report_reaches_its_own_kind_only.
+
+Theorem report_reaches_subclass_conditions_refuted :
+  reaches false 1 {| o_kind := 2; o_src := 1; o_aux := 0; o_n := 1 |} = true
+  /\ reaches false 1 {| o_kind := 3; o_src := 1; o_aux := 0; o_n := 1 |} = true.
+Proof. exact reaches_subclass_refuted. Qed.
+Print Assumptions report_reaches_subclass_conditions_refuted.
+
 (* non-vacuity: an event and a status occurrence, an OR trigger on the event and an AND trigger on both *)
 Example c13_nonvacuous :
   let trigs := [t_or_event; {| t_id := 1; t_conds := [0; 1]; t_logic := LAnd; t_static := false; t_prov := [0; 1] |}] in
